@@ -33,6 +33,8 @@ CATALOG = {
     ("type", "table"): ("CREATE TYPE ty5 AS TABLE (a int, b varchar(3));", {"schema": None, "type_name": "ty5"}),
     ("domain", "vc"): ("CREATE DOMAIN dm1 AS varchar(5);", {"schema": None, "domain_name": "dm1", "base_type": "varchar"}),
     ("domain", "num_s"): ("CREATE DOMAIN s1.dm2 AS numeric(10,2);", {"schema": "s1", "domain_name": "dm2", "base_type": "numeric"}),
+    ("domain", "enum"): ("CREATE DOMAIN s1.dm4 AS ENUM ('new', 'paid', 'shipped');", {"schema": "s1", "domain_name": "dm4", "base_type": "ENUM",
+                                                                                  "properties": {"values": ["'new'", "'paid'", "'shipped'"]}}),
     ("domain", "sizeless"): ("CREATE DOMAIN dm3 AS int;", {"schema": None, "domain_name": "dm3", "base_type": "int"}),
     ("schema", "plain"): ("CREATE SCHEMA sc1;", {"schema_name": "sc1"}),
     ("schema", "ine"): ("CREATE SCHEMA IF NOT EXISTS sc2;", {"schema_name": "sc2", "if_not_exists": True}),
@@ -57,6 +59,28 @@ MARKER = {"type": "type_name", "domain": "domain_name", "schema": "schema_name",
 FINDING_TAG = {("domain", "sizeless"): "domain_sizeless", ("schema", "ine_auth"): "schema_ine_auth"}
 
 
+# keywords of the catalogue statements whose letter case is chosen by seed (AUTHORIZATION and OBJECT are compared by spelling
+# in the pinned tree and are left as written: see OBSERVATIONS in DESIGN.md)
+RECASE = {"CREATE", "TYPE", "AS", "TABLE", "DOMAIN", "SCHEMA", "IF", "NOT", "EXISTS", "COMMENT", "DATABASE", "TABLESPACE",
+          "BIGFILE", "SMALLFILE", "TEMPORARY", "NULL"}
+
+
+def recase_stmt(ddl, rnd):
+    if rnd.random() < 0.34:
+        return ddl
+    out, in_q = [], False
+    for w in ddl.split(" "):
+        if not in_q and w.upper() in RECASE:
+            w = recase(w, rnd)
+        if w.count("'") % 2 == 1:
+            in_q = not in_q
+        out.append(w)
+    return " ".join(out)
+
+
+SEQ_NAMES = [(None, "sq{n}"), (None, '"Sq{n}"'), (None, '"ticket.no{n}"'), ("s1", "sq{n}"), ('"app.v2"', '"orders.id_seq{n}"'), ("S1", "[sq{n}]")]
+
+
 def tla_kinds(keys):
     return "{" + ", ".join(f'<<"{k}", "{f}">>' for k, f in keys) + "}"
 
@@ -70,8 +94,8 @@ def render(hist, seed):
     for a in hist:
         if a["a"] == "seq":
             nseq += 1
-            name = f"sq{nseq}" if rnd.random() < 0.7 else f'"Sq{nseq}"'
-            sch = "s1" if a["f"] == "schema" else None
+            sch, name = rnd.choice([x for x in SEQ_NAMES if (x[0] is not None) == (a["f"] == "schema")])
+            name = name.format(n=nseq)
             cur = {"text": f"{recase('CREATE', rnd)} {recase('SEQUENCE', rnd)} " + (sch + "." if sch else "") + name,
                    "exp": {"schema": sch, "sequence_name": name}}
         elif a["a"] == "opt":
@@ -91,7 +115,7 @@ def render(hist, seed):
             cur = None
         elif a["a"] == "declare":
             ddl, e = CATALOG[(a["k"], a["f"])]
-            lines.append(ddl)
+            lines.append(recase_stmt(ddl, rnd))
             exp.append((a["k"], e, False, FINDING_TAG.get((a["k"], a["f"]))))
         elif a["a"] == "kwtable":
             lines.append("CREATE TABLE kw (" + ", ".join(f"{c} int" for c in KW_COLS) + ");")
@@ -101,6 +125,16 @@ def render(hist, seed):
 
 def canon(x):
     return json.dumps(x, sort_keys=True)
+
+
+# values that are keywords of the statement (tablespace kind, ENUM / OBJECT) are reported in the case they were written
+KEYWORD_VALUED = {"type", "base_type"}
+
+
+def same(k, a, b):
+    if k in KEYWORD_VALUED and isinstance(a, str) and isinstance(b, str):
+        return a.upper() == b.upper()
+    return canon(a) == canon(b)
 
 
 def compare_entity(kind, exp, exact, got):
@@ -115,7 +149,7 @@ def compare_entity(kind, exp, exact, got):
                     paths.append(f"key.{k}")
     else:
         for k, v in exp.items():
-            if k not in got or canon(got[k]) != canon(v):
+            if k not in got or not same(k, got[k], v):
                 paths.append(f"key.{k}")
     if kind == "kwtable" and [c["name"] for c in got.get("columns", [])] != KW_COLS:
         paths.append("kw_columns")
